@@ -197,3 +197,31 @@ Theorem C0123_oracle_sound :
     corr (model_case prop bnd started clients sched ls s) = true.
 Proof. exact oracle_sound. Qed.
 Print Assumptions C0123_oracle_sound.
+
+(** * C01 — sends ordered by happens-before are received in that order *)
+
+(* [pushes ls] = the messages of the LPush labels of the run, in schedule
+   order.  If the Push of m1 (by whichever thread) comes before the Push of m2
+   in the schedule -- which is what any happens-before between the two sends
+   implies, in particular successive sends of one goroutine -- then the
+   receiver got m1 before m2: at quiescence [delivered] is exactly the
+   sequence of pushes in real-time order. *)
+Theorem C01_happens_before_order :
+  forall bnd started clients sched s ls,
+    clients_valid started clients -> started || has_starter clients = true ->
+    pills_in (program_msgs clients) = false ->
+    run_sched {| bound := bnd |} (start_of started clients) sched = Some (s, ls) ->
+    quiescent s = true ->
+    delivered s = pushes ls /\
+    forall l1 m1 l2 m2 l3, ls = l1 ++ LPush m1 :: l2 ++ LPush m2 :: l3 ->
+      delivered s = pushes l1 ++ m1 :: pushes l2 ++ m2 :: pushes l3.
+Proof. exact C01_happens_before_order_thm. Qed.
+Print Assumptions C01_happens_before_order.
+
+(* in any state, not only at quiescence: [pushed] is the real-time order of
+   the Push steps, and [delivered] is a prefix of it (C01_conservation) *)
+Theorem C01_pushed_is_push_order :
+  forall c started clients sched s ls,
+    run_sched c (start_of started clients) sched = Some (s, ls) -> pushed s = pushes ls.
+Proof. exact pushed_is_push_order. Qed.
+Print Assumptions C01_pushed_is_push_order.
